@@ -1,5 +1,5 @@
 SPECIFICATION TSpec
-CONSTANTS Units = {1,2,3,4,5,6,7,8,9,10}
+CONSTANTS Units = {1,2,3,4,5,6,7,8,9,10,101,102,103,104,105,106,107,108,109,110,111,112}
 INVARIANT NotAccepted
 CONSTRAINT TrackMax
 POSTCONDITION Post
